@@ -4,6 +4,14 @@
   and a decoder of the program structure (records, link pointers, final zero link).
   The table below is a *pinned copy* (it is not regenerated): the theorem
   `C13.table_is_mo5` compares the tool's current table with it on every run.
+  Provenance of the pinned table: the codes follow the order of Microsoft BASIC-80's reserved-word list
+  (END FOR NEXT DATA DIM READ LET GO RUN IF RESTORE RETURN REM ' STOP ELSE TRON TROFF DEFSTR DEFINT DEFSNG
+  DEFDBL ON …; functions SGN INT ABS FRE SQR LOG EXP COS SIN TAN PEEK LEN STR$ VAL ASC CHR$ … CVI CVS CVD
+  MKI$ MKS$ MKD$ …); the four spellings ABS, SQR, FN, DSKINI and the four words LET, DEFDBL, CVD, MKD$ were
+  wrong / missing in the pinned tree's table (fixes F24, F25); FF82 = ABS is confirmed by the real MO5
+  programs bundled in tests/data (line 2510 of LSYSMO5B.BAS: `IANGLE=<FF82>(VAL(SVAL$)) MOD 360`), which
+  C13's `real_programs` stream decodes with this table on every run.  The codes A7, B0 and D2 are
+  unassigned here as in the tool's table (the words they stand for cannot be established offline).
 -/
 import MotoModel.Model.Py
 import MotoModel.Spec.LineTools
@@ -18,6 +26,7 @@ def mo5Tokens : List (Str × Nat) := [
   ([68, 65, 84, 65], 131),
   ([68, 73, 77], 132),
   ([82, 69, 65, 68], 133),
+  ([76, 69, 84], 134),
   ([71, 79], 135),
   ([82, 85, 78], 136),
   ([73, 70], 137),
@@ -32,6 +41,7 @@ def mo5Tokens : List (Str × Nat) := [
   ([68, 69, 70, 83, 84, 82], 146),
   ([68, 69, 70, 73, 78, 84], 147),
   ([68, 69, 70, 83, 78, 71], 148),
+  ([68, 69, 70, 68, 66, 76], 149),
   ([79, 78], 150),
   ([84, 85, 78, 69], 151),
   ([69, 82, 82, 79, 82], 152),
@@ -69,7 +79,7 @@ def mo5Tokens : List (Str × Nat) := [
   ([84, 65, 66], 186),
   ([84, 79], 187),
   ([83, 85, 66], 188),
-  ([70, 78, 67], 189),
+  ([70, 78], 189),
   ([83, 80, 67], 190),
   ([85, 83, 73, 78, 71], 191),
   ([85, 83, 82], 192),
@@ -93,7 +103,7 @@ def mo5Tokens : List (Str × Nat) := [
   ([62], 211),
   ([61], 212),
   ([60], 213),
-  ([68, 83, 75, 73, 78], 214),
+  ([68, 83, 75, 73, 78, 73], 214),
   ([68, 83, 75, 79, 36], 215),
   ([75, 73, 76, 76], 216),
   ([78, 65, 77, 69], 217),
@@ -117,9 +127,9 @@ def mo5Tokens : List (Str × Nat) := [
   ([83, 87, 65, 80], 235),
   ([83, 71, 78], 65408),
   ([73, 78, 84], 65409),
-  ([65, 80, 83], 65410),
+  ([65, 66, 83], 65410),
   ([70, 82, 69], 65411),
-  ([83, 81, 76], 65412),
+  ([83, 81, 82], 65412),
   ([76, 79, 71], 65413),
   ([69, 88, 80], 65414),
   ([67, 79, 83], 65415),
@@ -157,8 +167,10 @@ def mo5Tokens : List (Str × Nat) := [
   ([68, 83, 75, 70], 65447),
   ([67, 86, 73], 65448),
   ([67, 86, 83], 65449),
+  ([67, 86, 68], 65450),
   ([77, 75, 73, 36], 65451),
   ([77, 75, 83, 36], 65452),
+  ([77, 75, 68, 36], 65453),
   ([76, 79, 67], 65454),
   ([76, 79, 70], 65455),
   ([83, 80, 65, 67, 69, 36], 65456),
@@ -193,7 +205,7 @@ def decode : Bool → Bytes → Str
 /-- characters that end a word: the punctuation . , ( ) : blank, the double quote, and the
     one-character operator tokens -/
 def isOperator (c : Nat) : Bool := (codeOf [c]).isSome
-def isPunct (c : Nat) : Bool := c == 46 || c == 44 || c == 40 || c == 41 || c == 58 || c == 32
+def isPunct (c : Nat) : Bool := c == 46 || c == 44 || c == 40 || c == 41 || c == 58 || c == 59 || c == 32
 def isSep (c : Nat) : Bool := isPunct c || isOperator c || c == 34
 
 def flushWord (w : Str) : Bytes := if (codeOf w).isSome then keywordBytes w else w
